@@ -44,14 +44,20 @@ struct Shared {
     /// op B / b: every service answers Pending to its readiness check while set (back-pressure); the wakers it was asked with
     blocked: std::sync::atomic::AtomicBool,
     ready_wakers: Mutex<Vec<std::task::Waker>>,
+    /// ops X / x: 1 + the builder call whose service fails its next readiness check (once); 0 = none
+    fail_call: AtomicUsize,
+    /// instantiations of each builder call's service factory so far, and (cid, ordinal of the instance that served it)
+    insts: Mutex<[usize; 16]>,
+    served_gen: Mutex<Vec<(u64, usize, usize)>>,
 }
 
 /// A user service whose readiness can be switched off from outside: `poll_ready` is Pending while `Shared::blocked` is set.
 #[derive(Clone)]
-struct Gated<S>(S, Arc<Shared>);
+struct Gated<S>(S, Arc<Shared>, usize);
 impl<S, Req> actix_service::Service<Req> for Gated<S>
 where
     S: actix_service::Service<Req>,
+    S::Error: Default,
 {
     type Response = S::Response;
     type Error = S::Error;
@@ -61,6 +67,10 @@ where
             self.1.ready_wakers.lock().unwrap().push(cx.waker().clone());
             return std::task::Poll::Pending;
         }
+        // a readiness failure armed for this builder call: the first instance of it that is asked fails, once
+        if self.1.fail_call.compare_exchange(self.2 + 1, 0, Ordering::SeqCst, Ordering::SeqCst).is_ok() {
+            return std::task::Poll::Ready(Err(Default::default()));
+        }
         self.0.poll_ready(cx)
     }
     fn call(&self, req: Req) -> Self::Future {
@@ -69,12 +79,13 @@ where
 }
 
 /// the factory of a `Gated` service (what `ServerBuilder::bind/listen` take)
-fn gated_factory<S, Req>(svc: S, sh: Arc<Shared>) -> impl actix_service::ServiceFactory<Req, Config = (), Response = S::Response, Error = S::Error, InitError = (), Service = Gated<S>> + Clone
+fn gated_factory<S, Req>(svc: S, sh: Arc<Shared>, call: usize) -> impl actix_service::ServiceFactory<Req, Config = (), Response = S::Response, Error = S::Error, InitError = (), Service = Gated<S>> + Clone
 where
     S: actix_service::Service<Req> + Clone + 'static,
+    S::Error: Default,
     Req: 'static,
 {
-    let g = Gated(svc, sh);
+    let g = Gated(svc, sh, call);
     actix_service::fn_factory(move || {
         let g = g.clone();
         async move { Ok::<_, ()>(g) }
@@ -132,13 +143,14 @@ fn enter(call: usize, w: usize, nworkers: usize, sh: &Arc<Shared>) -> (usize, Ac
     (w, Active(sh.clone(), w))
 }
 
-async fn serve<S: AsyncReadExt + AsyncWriteExt + Unpin>(mut s: S, call: usize, w: usize, act: Active, sh: Arc<Shared>) -> Result<(), ()> {
+async fn serve<S: AsyncReadExt + AsyncWriteExt + Unpin>(mut s: S, call: usize, w: usize, act: Active, sh: Arc<Shared>, gen: usize) -> Result<(), ()> {
     // the client sends its id as 8 bytes right after connecting
     let mut idb = [0u8; 8];
     let cid = match s.read_exact(&mut idb).await {
         Ok(_) => u64::from_le_bytes(idb),
         Err(_) => u64::MAX,
     };
+    sh.served_gen.lock().unwrap().push((cid, call, gen));
     sh.served.lock().unwrap().push((cid, call, w));
     let _ = s.write_all(b"k").await;
     let mut buf = [0u8; 16];
@@ -279,13 +291,19 @@ fn start(w: usize, l: usize, chain: &[String], dir: &PathBuf, sh: &Arc<Shared>, 
                     let w = inst2.fetch_add(1, Ordering::SeqCst) / per_worker;
                     let slow = SlowDrop(sh3.clone());
                     let sh4 = sh3.clone();
+                    let gen = {
+                        let mut v = sh3.insts.lock().unwrap();
+                        v[call.min(15)] += 1;
+                        v[call.min(15)]
+                    };
                     gated_factory(
                         fn_service(move |s: TcpStream| {
                             let _ = &slow;
                             let (w, act) = enter(call, w, nworkers, &sh3);
-                            serve(s, call, w, act, sh3.clone())
+                            serve(s, call, w, act, sh3.clone(), gen)
                         }),
                         sh4,
+                        call,
                     )
                 };
                 let sh2 = sh.clone();
@@ -294,13 +312,19 @@ fn start(w: usize, l: usize, chain: &[String], dir: &PathBuf, sh: &Arc<Shared>, 
                     let w = inst.fetch_add(1, Ordering::SeqCst);
                     let slow = SlowDrop(sh3.clone());
                     let sh4 = sh3.clone();
+                    let gen = {
+                        let mut v = sh3.insts.lock().unwrap();
+                        v[call.min(15)] += 1;
+                        v[call.min(15)]
+                    };
                     gated_factory(
                         fn_service(move |s: UnixStream| {
                             let _ = &slow;
                             let (w, act) = enter(call, w, nworkers, &sh3);
-                            serve(s, call, w, act, sh3.clone())
+                            serve(s, call, w, act, sh3.clone(), gen)
                         }),
                         sh4,
+                        call,
                     )
                 };
                 // listener names in an order that is neither ascending nor descending (nothing may depend on the names)
@@ -472,6 +496,12 @@ fn run_once(line: &str, dir: &PathBuf, quiet: Duration) -> String {
     let ops: Vec<&str> = field(line, "ops").unwrap().split(' ').filter(|s| !s.is_empty()).collect();
     let exp = expected_counts(field(line, "exp").unwrap_or(""));
     let sh = Arc::new(Shared::default());
+    // listener token -> builder call (bind with k addresses makes k tokens)
+    let mut tok_call: Vec<usize> = Vec::new();
+    for (i, it) in chain.iter().enumerate() {
+        let k: usize = if it.as_bytes()[0] == b'b' { it[1..].parse().unwrap() } else { 1 };
+        tok_call.extend(std::iter::repeat(i).take(k));
+    }
     let actix_system = field(line, "S").unwrap_or("a") == "a";
     // FNV-1a of the scenario text (without the expectation)
     let opt_seed = line.split(";exp=").next().unwrap().bytes().fold(0xcbf29ce484222325u64, |h, b| (h ^ b as u64).wrapping_mul(0x100000001b3));
@@ -490,10 +520,20 @@ fn run_once(line: &str, dir: &PathBuf, quiet: Duration) -> String {
     for (k, op) in ops.iter().enumerate() {
         let mut note = String::new();
         let rest = &op[1..];
+        let insts_before = *sh.insts.lock().unwrap();
         match op.as_bytes()[0] {
-            b'c' | b'E' | b'K' => {
+            b'x' => {
+                // arm a readiness failure of the service of this listener (it strikes when a worker next asks that service)
+                let tok: usize = rest.parse().unwrap();
+                sh.fail_call.store(tok_call[tok] + 1, Ordering::SeqCst);
+            }
+            b'c' | b'E' | b'K' | b'X' => {
                 let tok: usize = rest.parse().unwrap();
                 cid += 1;
+                if op.as_bytes()[0] == b'X' {
+                    // the same, and a client connects: the worker that takes the connection asks its services at once
+                    sh.fail_call.store(tok_call[tok] + 1, Ordering::SeqCst);
+                }
                 if op.as_bytes()[0] == b'K' {
                     sh.poison.store(true, Ordering::SeqCst);
                 }
@@ -705,7 +745,20 @@ fn run_once(line: &str, dir: &PathBuf, quiet: Duration) -> String {
             out.push(format!("{}={v}{note}", &op[..1]));
             break;
         }
-        out.push(format!("{}={}/a{}{}", op, items.join(","), act.join("."), note));
+        // service instances created during this operation (after start-up: only a restart after a failed readiness check or a
+        // replacement worker creates any), and for the calls that started whether a new instance served them
+        let insts_after = *sh.insts.lock().unwrap();
+        let newi: Vec<String> = (0..16).filter(|&c| insts_after[c] != insts_before[c]).map(|c| format!("{c}:{}", insts_after[c] - insts_before[c])).collect();
+        let mut info = String::new();
+        if !newi.is_empty() {
+            let gens = sh.served_gen.lock().unwrap();
+            let by: Vec<String> = new
+                .iter()
+                .filter_map(|(c, call, _)| gens.iter().find(|(g, _, _)| g == c).map(|(_, _, gen)| format!("{c}:{}", (*gen > insts_before[(*call).min(15)]) as u8)))
+                .collect();
+            info = format!("~new={};by={}", newi.join(","), by.join(","));
+        }
+        out.push(format!("{}={}/a{}{}{}", op, items.join(","), act.join("."), note, info));
     }
     for (_, c) in clients.iter_mut() {
         multi += c.extra_greetings();
@@ -743,7 +796,9 @@ pub fn run(line: &str, dir: &PathBuf, n: usize) -> String {
         std::fs::create_dir_all(&d).unwrap();
         last = run_once(line, &d, Duration::from_millis(base * mult));
         let _ = std::fs::remove_dir_all(&d);
-        if exp.is_empty() || last == exp {
+        // the `~new=..;by=..` information about service instances is not part of the model's output
+        let plain: String = last.split(' ').map(|t| t.split('~').next().unwrap_or("")).collect::<Vec<_>>().join(" ");
+        if exp.is_empty() || plain == exp {
             return format!("{last} | retries={retry}");
         }
         if last.contains("did-not-start") && retry == 1 {
